@@ -94,12 +94,12 @@ func genHealth(r *Rng, tier string, p *Plan) {
 }
 
 type hsub struct {
-	registered   bool
-	everUnreg    bool // currently unregistered after having been registered
-	timeout      time.Duration
-	reported     bool
-	lastReport   time.Time
-	lastReady    bool
+	registered bool
+	everUnreg  bool // currently unregistered after having been registered
+	timeout    time.Duration
+	reported   bool
+	lastReport time.Time
+	lastReady  bool
 }
 
 func runHealth(t *testing.T, p *Plan) *Outcome {
